@@ -19,6 +19,7 @@ fn main() {
         Some("c12-primex") => more::c12_primex(args.get(2).and_then(|s| s.parse().ok()).unwrap_or(200), args.get(3).and_then(|s| s.parse().ok())),
         Some("c13-primnames") => more::c13_primnames(),
         Some("c18-upcast") => more::c18_upcast(),
+        Some("c10-mixed") => more::c10_mixed(),
         Some("c08-resolve") => more::c08_resolve(),
         _ => {
             eprintln!("usage: vreplay fmt-search <maxlen> <seed> | fmt-one <string> | fmt-repeat <string> <count>");
